@@ -95,9 +95,8 @@ DEL_CONTRACT = r'''
    When called from the eviction loop the victim must be the candidate the policy prescribes: the entry with the smallest deadline if that
    deadline has passed, otherwise the least recently used one */
 __CPROVER_requires(__CPROVER_rw_ok(self, sizeof(*self)) && RI(self) && self->size >= 1 && NODE_SANE(p) && g_del_calls >= 0 && g_del_calls <= 2 * NCAP &&
-                   /* (a deadline equal to `now` may count either way) */
-                   (g_policy_on ==> ((g_cand_tm_valid && p == g_tm[g_cand_tm].second && g_tm[g_cand_tm].first <= g_now) ||
-                                     (g_cand_lru_valid && p == g_cand_lru_node && !(g_cand_tm_valid && g_tm[g_cand_tm].first < g_now)))))
+                   /* "deadline has passed" is the predicate fetch uses: deadline < now (an entry whose deadline equals the current second is still served, so it is live) */
+                   (g_policy_on ==> ((g_cand_tm_valid && g_tm[g_cand_tm].first < g_now) ? p == g_tm[g_cand_tm].second : (g_cand_lru_valid && p == g_cand_lru_node))))
 __CPROVER_assigns(self->size, self->triggers_count, g_primary_n, g_lru_n, g_tm_n, g_links_n, g_lru_erase_calls, g_lru_erase_arg, g_tm_erase_calls, g_tm_erase_arg, g_primary_erase_calls, g_primary_erase_arg,
                   g_tl_erase_calls, g_trig_erase_calls, g_del_calls, g_del_first, g_del_last, g_del_at_vi, g_cand_tm_valid, g_cand_lru_valid)
 /* the node leaves ALL four structures: its LRU position, its deadline entry, every trigger link it owns, and the key map; the counters follow */
@@ -115,6 +114,9 @@ struct cif { bool has_cache; size_t nrec; };
 int g_ci_trig_inserts; size_t g_ci_trig_last; size_t g_ri; int g_ci_rec_adds_at_ri, g_ci_rec_adds; size_t g_ci_rec_last_t;
 static void rec_add(size_t rec, size_t t) { g_ci_rec_adds++; if(rec == g_ri) { g_ci_rec_adds_at_ri++; g_ci_rec_last_t = t; } }
 static void trigs_insert(size_t t) { g_ci_trig_inserts++; g_ci_trig_last = t; }
+/* triggers_.find(x) on the page's own trigger set: an oracle (present or not) */
+#define TRIGS_END ((size_t)-1)
+static size_t trigs_find(size_t t) { int present; return present ? t : TRIGS_END; }
 /* cache_module_->fetch / store */
 bool g_cm_hit; struct idset g_cm_trigs; int g_cm_fetch_calls, g_cm_store_calls; bool g_cm_fetch_wants_trigs; size_t g_cm_store_key, g_cm_store_data; struct idset const *g_cm_store_trigs; time_t g_cm_store_deadline;
 static bool cm_fetch(size_t key, struct idset *out) { g_cm_fetch_calls++; g_cm_fetch_wants_trigs = out != 0; if(!g_cm_hit) return 0; if(out) *out = g_cm_trigs; return 1; }
@@ -236,9 +238,8 @@ __CPROVER_requires(__CPROVER_rw_ok(self, sizeof(*self)) && RI(self) && (g_find_r
                    g_find_calls == 0 && g_lru_erase_calls == 0 && g_lru_push_calls == 0 && g_out_trig_calls == 0 && g_new_lru != 0)
 __CPROVER_assigns(g_find_calls, g_find_key, g_time_calls, g_lru_n, g_lru_erase_calls, g_lru_erase_arg, g_lru_push_calls, g_lru_push_arg, g_lru_front, g_out_trig_calls, g_out_trig_last, g_nd[g_find_res].lru;
                   a != 0: *a; timeout_out != 0: *timeout_out; gen != 0: *gen)
-/* C07: a hit is never an expired entry, a miss is never a live one (a deadline equal to `now` may count either way); nothing is evicted or counted differently */
-__CPROVER_ensures(RI(self) && g_find_calls == 1 && g_find_key == key && (__CPROVER_return_value ==> (g_find_res != 0 && g_tm[g_nd[g_find_res].timeout].first >= g_now)) &&
-                  (!__CPROVER_return_value ==> (g_find_res == 0 || g_tm[g_nd[g_find_res].timeout].first <= g_now)))
+/* C07: a fetch misses exactly when the key is absent or its deadline has passed (deadline < now, the same predicate the eviction policy uses); nothing is evicted or counted differently */
+__CPROVER_ensures(RI(self) && g_find_calls == 1 && g_find_key == key && __CPROVER_return_value == (g_find_res != 0 && !(g_tm[g_nd[g_find_res].timeout].first < g_now)))
 /* a hit returns exactly the value, deadline, generation and the triggers of the node found, and makes it the most recently used entry */
 __CPROVER_ensures(__CPROVER_return_value ==> ((a != 0 ==> *a == g_nd[g_find_res].data) && (timeout_out != 0 ==> *timeout_out == g_tm[g_nd[g_find_res].timeout].first) && (gen != 0 ==> *gen == g_nd[g_find_res].generation) &&
                   (triggers != 0 ==> g_out_trig_calls == (int)g_nd[g_find_res].ntrig) &&
@@ -302,7 +303,7 @@ __CPROVER_ensures(g_at_calls == __CPROVER_old(g_at_calls) + 1 && g_at_last == t 
 '''),
     dict(cname='ci_fetch', file=CI, locate=lit('bool cache_interface::fetch(string const &key,string &result,bool notriggers)'), sig='bool ci_fetch(struct cif *self, size_t key, bool notriggers)', self_arg='self',
          rename={'add_trigger': 'ci_add_trigger'},
-         rewrites=[(r'nocache\(\)', '(!self->has_cache)', 1), (r'set<string> new_trig;', 'struct idset new_trig = {0, 0, 0};', 1), (r'cache_module_->fetch\(key,result,', 'cm_fetch(key,', 1),
+         rewrites=[(r'nocache\(\)', '(!self->has_cache)', 1), (r'set<string> new_trig;', 'struct idset new_trig = {0, 0, 0};', 1), (r'triggers_\.find\((\w+)\)', r'trigs_find(\1)', 0), (r'triggers_\.end\(\)', 'TRIGS_END', 0), (r'cache_module_->fetch\(key,result,', 'cm_fetch(key,', 1),
                    (r'std::set<std::string>::const_iterator p;', 'size_t p;', 1), (r'new_trig\.begin\(\)', '0', 1), (r'new_trig\.end\(\)', 'new_trig.n', 1), (r'\*p\b', 'set_elem(&new_trig, p)', 1)],
          loops={0: r'''
 __CPROVER_assigns(p, g_ci_rec_adds, g_ci_rec_adds_at_ri, g_ci_rec_last_t, g_ci_trig_inserts, g_ci_trig_last, g_at_calls, g_at_last, g_at_at_k)
